@@ -107,4 +107,5 @@ package verifier
 //@   ensures[C17.written-mismatch-reported] old(report.WrittenSum) != 0 && old(report.WrittenSum) != old(report.ExpectedSum) ==> report.Err != nil
 //@   ensures[C16.range-mismatch-no-read] old(report.WrittenSum) == 0 || old(report.WrittenSum) == old(report.ExpectedSum) ==> nevent("call:raft.LogStore.FirstIndex") == 1
 //@   ensures[C17.read-mismatch-reported] report.Err == nil ==> report.ReadSum == report.ExpectedSum
+//@   ensures[C16.missing-entry-is-range-mismatch] nevent("call:raft.LogStore.GetLog") >= 1 && g_under_err == raft.ErrLogNotFound ==> report.Err == ErrRangeMismatch
 //@   loop 1 invariant report.Err == nil && report.WrittenSum == old(report.WrittenSum) && report.ExpectedSum == old(report.ExpectedSum)
